@@ -90,6 +90,13 @@ class Gen:
 
     def maintenance(self):
         r = self.rng
+        if self.bloom and r.random() < 0.2:
+            # filters only: the bloom buffers of closed blobs (level 0) and of the group nodes (level >= 1) are dropped
+            self.emit('offload %d %d' % (r.choice([1, 1000000]), r.choice([0, 1, 2])))
+            return
+        if r.random() < 0.04:
+            self.emit('fsync')
+            return
         x = r.random()
         if x < 0.3: self.emit('close_active')
         elif x < 0.45: self.emit('create_active')
